@@ -35,7 +35,7 @@ def register(eng):
         src = strip_generics(eng._tg or "i64")
         return Agg("Int", None, 0, [eng.cast_int(x, src, "i128")])
 
-    @model("From::from@BoundedBytes", "From::from@Bytes", "Into::into@Vec")
+    @model("From::from@BoundedBytes", "From::from@Bytes", "Into::into@Bytes", "Into::into@BoundedBytes")
     def _(eng, a, c):
         dst = strip_generics(eng._self_t)
         if "as Into" in c:
@@ -127,12 +127,23 @@ def register(eng):
         return Agg("CborWrap", None, 0, [a[0]])
 
     # ---- uninterpreted: encoders and digests (only wiring claims are made through these)
-    @model("minicbor::to_vec", "ComputeHash::compute_hash", "ScriptData::hash", "OriginalHash::original_hash", "Hasher::hash", "Hash::to_vec")
+    @model("minicbor::to_vec", "to_vec", "ComputeHash::compute_hash", "ScriptData::hash", "OriginalHash::original_hash", "Hasher::hash", "Hash::to_vec")
     def _(eng, a, c):
         name = re.sub(r"::<.*", "", c.split("::")[-1]) if not c.startswith("<") else c.split(">::")[-1]
-        if "to_vec" in c and "minicbor" in c:
+        if "to_vec" in c and ("minicbor" in c or c.startswith("to_vec")):
             return ok(Opaque("cbor", [deref(a[0])]))
         return Opaque(name, [deref(x) for x in a])
+
+    @model("minicbor::decode", "minicbor::decode_with")
+    def _(eng, a, c):
+        # uninterpreted decoder: succeeds or fails (both explored)
+        if eng.choose(2, "decode outcome") == 0:
+            return ok(Opaque("decoded", [deref(a[0])]))
+        return err(Opaque("decode_error"))
+
+    @model("KeepRaw::to_owned", "ToOwned::to_owned@KeepRaw")
+    def _(eng, a, c):
+        return deref(a[0])
 
     @model("ScriptData::build_for")
     def _(eng, a, c):
